@@ -1497,6 +1497,44 @@ GEN(int) @G(p *[2]int) {
 	RETURN
 }`, Drives: []Drive{gen("int", "@G", "&[2]int{7, 8}")}},
 
+	{Name: "UserFunctionNamedPanic", Props: []string{"C11", "C01"}, Src: `
+// a function of the package named like a builtin that terminates: it returns normally
+var @problems []string
+func panic(v any) { @problems = append(@problems, vm.TypeName(v)) }
+GEN(int) @Digits(s string) {
+	for _, c := range s {
+		if '0' <= c && c <= '9' { YIELD(int(c - '0')) } else { panic(c) }
+	}
+	switch {
+	case len(s) > 3:
+		panic("long")
+	default:
+		panic(1)
+	}
+	RETURN
+}
+func @F(s string) int {
+	@problems = nil
+	t := 0
+	RANGEITER(d, :=, GENCALL(int, @Digits, s)) { t += d }
+	return 100*t + len(@problems)
+}`, Drives: []Drive{fn("int", "@F", `"1a2b3"`), fn("int", "@F", `"7"`)}},
+
+	{Name: "MapNamedKeyAndElementTypes", Props: []string{"C04", "C10"}, Src: `
+// maps whose key / element types are DEFINED types over string, int, float64, bool
+type @color string
+type @id int
+type @ratio float64
+type @flag bool
+GEN(int) @G() {
+	for k, v := range map[@color]int{"red": 1, "green": 2} { YIELD(len(k) * v) }
+	for k, v := range map[string]@id{"ann": 7, "bob": 9} { YIELD(len(k) * int(v)) }
+	for k, v := range map[@id]@ratio{3: 1.5} { YIELD(int(k) * int(v*2)) }
+	for k := range map[@flag]@color{true: "x"} { if k { YIELD(1) } }
+	RETURN
+}
+func @Sum() int { t := 0; RANGEITER(v, :=, GENCALL(int, @G)) { t += v }; return t }`, Drives: []Drive{fn("int", "@Sum", "")}},
+
 	{Name: "TypeSwitchScopes", Props: []string{"C03", "C01"}, Src: `
 GEN(int) @G(vs []any) {
 	for _, v := range vs {
@@ -1989,6 +2027,25 @@ GEN(int) @G(xs []int) {
 	YIELD(3)
 	RETURN
 }`, Drives: []Drive{gen("int", "@G", "[]int{7, 8}")}},
+
+	{Name: "DeferInElseOfYieldFreeIf", Props: []string{"C12"}, MayReject: true, Src: `
+// the unsupported statement sits in the ELSE block of an if / else without any yield
+GEN(int) @G(verbose bool) {
+	if verbose { vm.E("verbose") } else { defer vm.E("deferred") }
+	YIELD(1)
+	YIELD(2)
+	RETURN
+}`, Drives: []Drive{gen("int", "@G", "false"), gen("int", "@G", "true")}},
+
+	{Name: "SelectInElseOfYieldFreeIf", Props: []string{"C12"}, MayReject: true, Src: `
+GEN(int) @G(ch chan int) {
+	for i := 0; i < 3; i++ {
+		YIELD(i)
+		if i > 5 { vm.E("big") } else { select { case <-ch: default: break } }
+		YIELD(10 + i)
+	}
+	RETURN
+}`, Drives: []Drive{gen("int", "@G", "nil")}},
 
 	{Name: "RangePointerToArray", Props: []string{"C12", "C04"}, MayReject: true, Src: `
 GEN(int) @G() {
